@@ -3,7 +3,9 @@
 From Coq Require Import List NArith Bool String Ascii.
 From T4V Require Import Base.Str C14.Model C14.ProofsContent C14.ProofsCards C14.ProofsCase
   C14.ProofsSplit C14.ProofsBlocks C14.ProofsCell C14.ProofsFront C14.ProofsNumber
-  C14.ProofsDeck C14.ProofsCell2 C14.ProofsMeta C14.ProofsExpand C14.Exec.
+  C14.ProofsDeck C14.ProofsCell2 C14.ProofsMeta C14.ProofsExpand C14.Exec C14.LinkC15Front.
+From T4V Require C15.Model C14.LinkC15 C09.Model.
+From T4V Require Import Base.Scalar.
 Import ListNotations.
 Open Scope string_scope.
 
@@ -583,3 +585,175 @@ Example C14_shorthand_invariant_nonvacuous :
   expand_q None ["1"; "2R"; "2I"; "7"; "3M"; "J"]
   = ser_list ["1/1"; "1/1"; "1/1"; "3/1"; "5/1"; "7/1"; "21/1"; "J"] ++ sep2 ++ "6".
 Proof. repeat split; vm_compute; reflexivity. Qed.
+
+(* ==== deepening round 2 ==== *)
+
+(* shorthand with an expected count (FILL arrays): nR equals its expansion when
+   the repeated entries fit the count ... *)
+Theorem C14_shorthand_expected_fits :
+  forall (V : Type) (rd : string -> option V) (lin : V -> V -> nat -> list V) (mul : V -> V -> V)
+         (e : nat) (t pre : string) (n : nat) (x : string) (v : V) (acc : list (option V)) (k : nat)
+         (ts : list string),
+  kind_of (lower t) = KRep pre -> count_of pre = Some n -> plain V rd x v ->
+  List.length acc + 1 + n <= e -> n <> 0 ->
+  vals V (run V rd lin mul (Some e) (Some v :: acc) k (t :: ts))
+  = vals V (run V rd lin mul (Some e) (Some v :: acc) k (repeat x n ++ ts)%list).
+Proof. exact expand_repeat_expected. Qed.
+Print Assumptions C14_shorthand_expected_fits.
+
+(* ... and is NOT invariant on an over-long card: the shorthand form raises
+   ValueError, its expansion is silently cut after the expected number of
+   entries (both cards hold too many entries for MCNP) *)
+Theorem C14_shorthand_expected_overlong_refuted :
+  forall (V : Type) (rd : string -> option V) (lin : V -> V -> nat -> list V) (mul : V -> V -> V)
+         (e : nat) (t pre : string) (n : nat) (x : string) (v : V) (acc : list (option V)) (k : nat),
+  kind_of (lower t) = KRep pre -> count_of pre = Some n -> plain V rd x v ->
+  List.length acc + 1 < e -> e < List.length acc + 1 + n ->
+  vals V (run V rd lin mul (Some e) (Some v :: acc) k [t]) = XErr XValue /\
+  exists r, vals V (run V rd lin mul (Some e) (Some v :: acc) k (repeat x n)) = XOk r /\ List.length r = e.
+Proof. exact expand_repeat_overlong. Qed.
+Print Assumptions C14_shorthand_expected_overlong_refuted.
+
+Example C14_shorthand_expected_nonvacuous :
+  expand_q (Some 4) ["1"; "5r"] = ser_xerr XValue /\
+  expand_q (Some 4) ["1"; "1"; "1"; "1"; "1"; "1"] = ser_list ["1/1"; "1/1"; "1/1"; "1/1"] ++ sep2 ++ "4" /\
+  expand_q (Some 4) ["1"; "3r"] = ser_list ["1/1"; "1/1"; "1/1"; "1/1"] ++ sep2 ++ "2".
+Proof. repeat split; vm_compute; reflexivity. Qed.
+
+(* rendered cell card whose density holds letters (1.5e-3, 6.4d-2) *)
+Theorem C14_split_cell_rendered_density :
+  forall (bl br : bool) (name m : string) (r0 : ascii) (rho : string) (gs : list string)
+         (d : ascii) (o : string) (os : list string),
+  all_chars is_digit name = true -> name <> "" ->
+  all_chars is_digit m = true -> all_chars (ceq "0") m = false ->
+  all_chars dens_char (String r0 rho) = true -> all_chars nolead (String r0 rho) = true ->
+  is_opt_start r0 = false ->
+  gs <> [] -> Forall geom_token gs -> is_opt_start d = true ->
+  cell_split (pad bl ++ join " " (name :: m :: String r0 rho :: gs ++ String d o :: os) ++ pad br)
+  = Ok (pad bl ++ name, " " ++ m ++ " " ++ String r0 rho, " " ++ join " " gs ++ " ",
+        join " " (String d o :: os) ++ pad br).
+Proof. exact cell_split_rendered_density. Qed.
+Print Assumptions C14_split_cell_rendered_density.
+
+(* rendered LIKE n BUT card *)
+Theorem C14_split_cell_rendered_like :
+  forall (bl br : bool) (name : string) (l1 l2 l3 l4 : ascii) (n : string) (b1 b2 b3 : ascii)
+         (opts : list string),
+  all_chars is_digit name = true -> name <> "" ->
+  lower (String l1 (String l2 (String l3 (String l4 "")))) = "like" -> is_but b1 b2 b3 ->
+  is_token n -> has_but (match opts with [] => "" | _ => " " ++ join " " opts end ++ pad br) = false ->
+  cell_split (pad bl ++ join " " (name :: String l1 (String l2 (String l3 (String l4 ""))) :: n
+                                   :: String b1 (String b2 (String b3 "")) :: opts) ++ pad br)
+  = Ok (pad bl ++ name, "",
+        " " ++ String l1 (String l2 (String l3 (String l4 (" " ++ n ++ " " ++ String b1 (String b2 (String b3 "")))))),
+        match opts with [] => "" | _ => " " ++ join " " opts end ++ pad br).
+Proof. exact cell_split_rendered_like. Qed.
+Print Assumptions C14_split_cell_rendered_like.
+
+(* LINK to C15 (cell parser: LIKE n BUT resolution through apply_but, keyword
+   parsing, defaults): C15's parse_all does not distinguish two card tables
+   whose option strings are tokenised alike and whose LIKE geometries agree up
+   to case *)
+Theorem C14_parse_all_congruence_linked :
+  forall (T : Type) (SC : Scalar T) (e : C15.Model.env (T:=T)) (t t' : C15.Model.table),
+  C14.LinkC15.table_eq t t' -> C15.Model.parse_all SC e t = C15.Model.parse_all SC e t'.
+Proof. intros T SC e t t'. apply C14.LinkC15.parse_all_eq. Qed.
+Print Assumptions C14_parse_all_congruence_linked.
+
+(* LINKED metamorphic statement: the cell cards of a deck (void cells, cells
+   with material and density, LIKE n BUT cells) laid out in two ways -- any
+   blanks, tabs, continuation breaks, comment lines, trailers (C14_content_layout)
+   -- with options, LIKE and BUT in any letter case: C14's front end
+   (Card.content, cellcard.split, get_cells' int(name)) produces two tables on
+   which C15's model of parse_all_cells returns the SAME cells, for every
+   environment (importances of the IMP data cards as modelled by C12,
+   normalize_float as modelled by C09, float(), TR table, get_ast ...) *)
+Theorem C14_parse_metamorphic_linked :
+  forall (T : Type) (SC : Scalar T) (e : C15.Model.env (T:=T))
+         (Ls Ls' : list (list pline)) (As As' : list acell),
+  Forall2 layout_of Ls As -> Forall2 layout_of Ls' As' ->
+  Forall acell_ok As -> Forall acell_ok As' -> Forall2 avariant As As' ->
+  exists t t',
+    entries Ls = map Some t /\ entries Ls' = map Some t' /\
+    C15.Model.parse_all SC e t = C15.Model.parse_all SC e t'.
+Proof. intros T SC e Ls Ls' As As' H1 H2 H3 H4 H5. exact (parse_metamorphic_linked SC e Ls Ls' As As' H1 H2 H3 H4 H5). Qed.
+Print Assumptions C14_parse_metamorphic_linked.
+
+(* in particular with C09's model of normalize_float in the environment *)
+Definition c09_normfloat (s : string) : string :=
+  match C09.Model.normalize_float s with C09.Model.Ok r => r | C09.Model.Err _ => s end.
+
+Corollary C14_parse_metamorphic_c09_linked :
+  forall (T : Type) (SC : Scalar T) (e : C15.Model.env (T:=T))
+         (Ls Ls' : list (list pline)) (As As' : list acell),
+  Forall2 layout_of Ls As -> Forall2 layout_of Ls' As' ->
+  Forall acell_ok As -> Forall acell_ok As' -> Forall2 avariant As As' ->
+  let e9 := C15.Model.mkEnv (C15.Model.pyfloat e) (C15.Model.pytrunc e) (C15.Model.pyround e)
+              (C15.Model.pytotrunc e) (C15.Model.trtab e) (C15.Model.normtr e) c09_normfloat
+              (C15.Model.getast e) (C15.Model.imps e) (C15.Model.latopt e) in
+  exists t t',
+    entries Ls = map Some t /\ entries Ls' = map Some t' /\
+    C15.Model.parse_all SC e9 t = C15.Model.parse_all SC e9 t'.
+Proof. intros T SC e Ls Ls' As As' H1 H2 H3 H4 H5 e9. exact (parse_metamorphic_linked SC e9 Ls Ls' As As' H1 H2 H3 H4 H5). Qed.
+Print Assumptions C14_parse_metamorphic_c09_linked.
+
+(* non-vacuity: a void cell, a material cell and a LIKE cell, twice *)
+Definition ex_As : list acell :=
+  [AVoid "1" "0" ["-1"; "2"] "i" "mp:n=1" ["u=2"];
+   AMat "2" "3" "-" "1.5e-3" ["(1:-2)"] "*" "fill=4" ["(1"; "0"; "0)"];
+   ALike "7" "l" "i" "k" "e" "2" "b" "u" "t" ["trcl=(1"; "0"; "0)"]].
+Definition ex_As' : list acell :=
+  [AVoid "1" "0" ["-1"; "2"] "I" "MP:N=1" ["U=2"];
+   AMat "2" "3" "-" "1.5e-3" ["(1:-2)"] "*" "FILL=4" ["(1"; "0"; "0)"];
+   ALike "7" "L" "I" "K" "E" "2" "B" "u" "T" ["TRCL=(1"; "0"; "0)"]].
+Definition one_line (toks : list string) : list pline :=
+  [mk_pline (map (fun t => (" ", t)) toks) "" "$ x"].
+Definition two_lines (toks : list string) : list pline :=
+  match toks with
+  | t :: r => [mk_pline [("", t)] " " "& c"; mk_pline (map (fun t => (String tab "", t)) r) "  " ""]
+  | [] => []
+  end.
+
+Example C14_parse_metamorphic_linked_nonvacuous :
+  Forall2 layout_of (map (fun a => one_line (atoks a)) ex_As) ex_As /\
+  Forall2 layout_of (map (fun a => two_lines (atoks a)) ex_As') ex_As' /\
+  Forall acell_ok ex_As /\ Forall acell_ok ex_As' /\ Forall2 avariant ex_As ex_As' /\
+  entries (map (fun a => two_lines (atoks a)) ex_As')
+  = [Some (BinNums.Zpos 1%positive, (" 0", " -1 2 ", "IMP:N=1 U=2 "));
+     Some (BinNums.Zpos 2%positive, (" 3 -1.5e-3", " (1:-2) ", "*FILL=4 (1 0 0) "));
+     Some (BinNums.Zpos 7%positive, ("", " LIKE 2 BuT", " TRCL=(1 0 0) "))].
+Proof.
+  unfold layout_of, acell_ok, avariant, ex_As, ex_As', C14.LinkC15.owf, is_but, geom_token, is_token,
+    one_line, two_lines, like_word, but_word.
+  repeat (cbn; match goal with
+         | |- _ /\ _ => split
+         | |- Forall _ [] => constructor
+         | |- Forall _ (_ :: _) => constructor
+         | |- Forall2 _ [] [] => constructor
+         | |- Forall2 _ (_ :: _) (_ :: _) => constructor
+         | |- True => exact I
+         | |- _ <> _ => discriminate
+         | |- forall b : bool, _ => intros []
+         | |- _ = _ => reflexivity
+         | |- "" = "" \/ _ => left; reflexivity
+         | |- _ \/ (exists c r, String ?x ?y = String c r /\ _) => right; exists x, y; split; reflexivity
+         | |- line_ok _ => unfold line_ok, item_ok, gap_nonempty, trailer_ok
+         end).
+Qed.
+
+(* open finding message_block_no_blank_after_colon, at model level: a deck
+   that is split into its blocks is no longer split when a message block
+   "message:outp=x" (no blank after the colon) and a blank line stand in front;
+   with the blank it is *)
+Theorem C14_message_no_blank_refuted :
+  exists d : deck_layout,
+    deck_ok d /\ first_word_message (deck_text d) = Some false /\
+    (exists l, blocks (deck_text d) = Ok l) /\
+    blocks ("message:outp=x" ++ String nl (String nl (deck_text d))) = Err EValue /\
+    (exists l, blocks ("message: outp=x" ++ String nl (String nl (deck_text d))) = Ok (("m"%char, "message: outp=x" ++ String nl "") :: l)).
+Proof.
+  exists ex_deck. split; [exact (proj1 ex_deck_ok)|]. split; [exact (proj2 ex_deck_ok)|].
+  split; [eexists; vm_compute; reflexivity|]. split; [vm_compute; reflexivity|].
+  eexists; vm_compute; reflexivity.
+Qed.
+Print Assumptions C14_message_no_blank_refuted.
